@@ -11,33 +11,42 @@ open MongoModel MongoModel.Expr
 
 /-! ### `$let` -/
 
-/-- **let_subst**: the variables are evaluated under the outer bindings, then `in` under the
-    outer bindings extended by all of them; a missing variable value makes the `$let` missing -/
-theorem let_subst (c : Ctx) (vs : Fields) (body : Val) :
+theorem let_shaped (gs : Fields) : mode "$let" (.doc gs) = .shaped := by
+  simp [mode, dateOps, datePartOps, wholeOps, unaryArithOps, groupingOps, hasTzKeys]
+
+/-- **let_subst**: the names are checked, the variables are evaluated under the outer bindings
+    (a missing value is kept as such), then `in` under the outer bindings extended by all of
+    them -/
+theorem let_subst (c : Ctx) (vs : Fields) (body : Val)
+    (hn : vs.all (fun kv => validVarName kv.1) = true) :
     eval c (.doc [("$let", .doc [("vars", .doc vs), ("in", body)])]) =
-      (evalVars c vs).bind (fun r =>
-        match r with
-        | none => .ok none
-        | some xs => eval (c.bindAll xs) body) := by
-  have h1 : classify "$let" = .projection := by decide
-  have h2 : mode "$let" (.doc [("vars", .doc vs), ("in", body)]) = .shaped := by
-    simp [mode, dateOps, datePartOps, wholeOps, unaryArithOps, groupingOps, hasTzKeys]
-  simp [eval, evalDoc, h1, h2, evalOp, dhas, dget, evalVarsAt, evalAt]
+      (evalVars c vs).bind (fun bs => eval (c.bindAll bs) body) := by
+  rw [eval_shaped c "$let" _ (by decide) (by decide) (by decide) (by decide)
+    (Or.inl (by decide)) (let_shaped _)]
+  simp [evalOp, dhas, dget, evalVarsAt, evalAt, hn]
   rfl
 
-/-- all variables present: the bindings are exactly the evaluated values -/
-theorem evalVars_ok (c : Ctx) (vs : Fields) (xs : List Val)
-    (h : vs.map (fun kv => eval c kv.2) = xs.map (fun x => .ok (some x))) :
-    evalVars c vs = .ok (some ((vs.map (·.1)).zip xs)) := by
-  induction vs generalizing xs with
-  | nil => cases xs <;> simp_all [evalVars]
+/-- a name that is not a variable name is rejected before anything is evaluated -/
+theorem let_bad_name (c : Ctx) (vs : Fields) (body : Val)
+    (hn : vs.all (fun kv => validVarName kv.1) = false) :
+    eval c (.doc [("$let", .doc [("vars", .doc vs), ("in", body)])]) = .error .opFail := by
+  rw [eval_shaped c "$let" _ (by decide) (by decide) (by decide) (by decide)
+    (Or.inl (by decide)) (let_shaped _)]
+  simp [evalOp, dhas, dget, hn]
+
+/-- the bindings are exactly the evaluated values, missing ones included -/
+theorem evalVars_ok (c : Ctx) (vs : Fields) (rs : List (Option Val))
+    (h : vs.map (fun kv => eval c kv.2) = rs.map .ok) :
+    evalVars c vs = .ok ((vs.map (·.1)).zip rs) := by
+  induction vs generalizing rs with
+  | nil => cases rs <;> simp_all [evalVars]
   | cons kv vs ih =>
     obtain ⟨k, v⟩ := kv
-    cases xs with
+    cases rs with
     | nil => simp at h
-    | cons x xs =>
+    | cons x rs =>
       simp only [List.map_cons, List.cons.injEq] at h
-      simp [evalVars, h.1, ih xs h.2, bind, Except.bind, pure, Except.pure]
+      simp [evalVars, h.1, ih rs h.2, bind, Except.bind, pure, Except.pure]
 
 /-! ### `$map`, `$filter` -/
 
@@ -98,6 +107,14 @@ theorem mapItems_length (f : Val → R (Option Val)) (items ys : List Val)
         subst h
         simp [ih zs hr]
 
+theorem map_shaped (gs : Fields) : mode "$map" (.doc gs) = .shaped := by
+  simp [mode, dateOps, datePartOps, wholeOps, unaryArithOps, groupingOps, hasTzKeys]
+
+theorem filter_shaped (gs : Fields) : mode "$filter" (.doc gs) = .shaped := by
+  simp [mode, dateOps, datePartOps, wholeOps, unaryArithOps, groupingOps, hasTzKeys]
+
+theorem this_valid : validVarName "this" = true := by decide
+
 /-- **map_spec** (default variable name `this`) -/
 theorem map_spec (c : Ctx) (inp body : Val) :
     eval c (.doc [("$map", .doc [("input", inp), ("in", body)])]) =
@@ -107,11 +124,10 @@ theorem map_spec (c : Ctx) (inp body : Val) :
         | some (.arr items) =>
           (mapItems (fun item => eval (c.bind "this" item) body) items).map (fun ys => some (.arr ys))
         | some _ => .error .opFail) := by
-  have h1 : classify "$map" = .array := by decide
-  have h2 : mode "$map" (.doc [("input", inp), ("in", body)]) = .shaped := by
-    simp [mode, dateOps, datePartOps, wholeOps, unaryArithOps, groupingOps, hasTzKeys]
-  simp only [eval, evalDoc, h1, h2, evalOp]
-  simp [dhas, dget, evalAt, asName, bind, Except.bind]
+  rw [eval_shaped c "$map" _ (by decide) (by decide) (by decide) (by decide)
+    (Or.inl (by decide)) (map_shaped _)]
+  simp only [evalOp]
+  simp [dhas, dget, evalAt, asName, this_valid, bind, Except.bind]
   cases eval c inp with
   | error e => rfl
   | ok r =>
@@ -120,7 +136,7 @@ theorem map_spec (c : Ctx) (inp body : Val) :
     | some v => cases v <;> simp [Except.map, pure, Except.pure] <;> (split <;> rfl)
 
 /-- **map_spec** with an explicit variable name -/
-theorem map_spec_as (c : Ctx) (inp body : Val) (name : String) :
+theorem map_spec_as (c : Ctx) (inp body : Val) (name : String) (hn : validVarName name = true) :
     eval c (.doc [("$map", .doc [("input", inp), ("as", .str name), ("in", body)])]) =
       (eval c inp).bind (fun r =>
         match r with
@@ -128,17 +144,25 @@ theorem map_spec_as (c : Ctx) (inp body : Val) (name : String) :
         | some (.arr items) =>
           (mapItems (fun item => eval (c.bind name item) body) items).map (fun ys => some (.arr ys))
         | some _ => .error .opFail) := by
-  have h1 : classify "$map" = .array := by decide
-  have h2 : mode "$map" (.doc [("input", inp), ("as", .str name), ("in", body)]) = .shaped := by
-    simp [mode, dateOps, datePartOps, wholeOps, unaryArithOps, groupingOps, hasTzKeys]
-  simp only [eval, evalDoc, h1, h2, evalOp]
-  simp [dhas, dget, evalAt, asName, bind, Except.bind]
+  rw [eval_shaped c "$map" _ (by decide) (by decide) (by decide) (by decide)
+    (Or.inl (by decide)) (map_shaped _)]
+  simp only [evalOp]
+  simp [dhas, dget, evalAt, asName, hn, bind, Except.bind]
   cases eval c inp with
   | error e => rfl
   | ok r =>
     cases r with
     | none => rfl
     | some v => cases v <;> simp [Except.map, pure, Except.pure] <;> (split <;> rfl)
+
+/-- a name that is not a variable name is rejected before `input` is evaluated -/
+theorem map_bad_name (c : Ctx) (inp body : Val) (name : String) (hn : validVarName name = false) :
+    eval c (.doc [("$map", .doc [("input", inp), ("as", .str name), ("in", body)])]) =
+      .error .opFail := by
+  rw [eval_shaped c "$map" _ (by decide) (by decide) (by decide) (by decide)
+    (Or.inl (by decide)) (map_shaped _)]
+  simp only [evalOp]
+  simp [dhas, dget, asName, hn]
 
 /-- **filter_spec**: the condition is evaluated under the binding of each item; the item is kept
     when the value is true (`toBool`, a missing value being false); a null or missing input gives
@@ -152,11 +176,10 @@ theorem filter_spec (c : Ctx) (inp cond : Val) :
           (filterItems (fun item => eval (c.bind "this" item) cond) items).map
             (fun ys => some (.arr ys))
         | some v => iterErr v) := by
-  have h1 : classify "$filter" = .array := by decide
-  have h2 : mode "$filter" (.doc [("input", inp), ("cond", cond)]) = .shaped := by
-    simp [mode, dateOps, datePartOps, wholeOps, unaryArithOps, groupingOps, hasTzKeys]
-  simp only [eval, evalDoc, h1, h2, evalOp]
-  simp [dhas, dget, evalAt, asName, bind, Except.bind]
+  rw [eval_shaped c "$filter" _ (by decide) (by decide) (by decide) (by decide)
+    (Or.inl (by decide)) (filter_shaped _)]
+  simp only [evalOp]
+  simp [dhas, dget, evalAt, asName, this_valid, bind, Except.bind]
   cases eval c inp with
   | error e => rfl
   | ok r =>
